@@ -431,4 +431,50 @@ theorem xreduce_pre (x : XTables) (inp : Input) (fin : Int) (stop : Bool) (c1 : 
         repeat' (first | rfl | split)
   · rfl
 
+def xshiftPre (x : XTables) (cancelAt : Nat) (c1 : XCfg) (q : Int) : XPre :=
+    if x.cancellable ∧ pollHit cancelAt c1 then
+      .done .cancelled { c1 with shiftCounter := c1.shiftCounter + 1 }
+    else
+      match c1.next with
+      | none => .done .panic c1
+      | some tk =>
+        .cont { c1 with stack := ⟨tk.sym, tk.off, tk.endo, q⟩ :: c1.stack, state := q,
+                        next := if tk.sym ≠ 0 then none else c1.next,
+                        recovering := c1.recovering - 1,
+                        shiftCounter := if x.cancellable then c1.shiftCounter + 1 else c1.shiftCounter }
+
+def xerrorPre (x : XTables) (cancelAt : Nat) (c1 : XCfg) : XPre :=
+    if failedShift x c1 then
+      if pollHit cancelAt c1 then
+        .done .cancelled { c1 with shiftCounter := c1.shiftCounter + 1 }
+      else .err { c1 with shiftCounter := c1.shiftCounter + 1 }
+    else .err c1
+
+/-- one loop iteration up to (excluding) the error branch -/
+def xpre (x : XTables) (inp : Input) (cancelAt : Nat) (c : XCfg) : XPre :=
+  match xdecode x inp c with
+  | none => .done .panic c
+  | some (c1, .reduce rule) => xreducePre x inp c1 rule
+  | some (c1, .shift q) => xshiftPre x cancelAt c1 q
+  | some (c1, .error) => xerrorPre x cancelAt c1
+
+theorem xstep_pre (x : XTables) (inp : Input) (fin : Int) (stop : Bool) (k : Nat) (c : XCfg) :
+    xstep x inp fin stop k c = (xpre x inp k c).run (onError x inp fin stop) := by
+  rw [xstep_eq]
+  unfold xpre
+  cases xdecode x inp c with
+  | none => rfl
+  | some p =>
+    obtain ⟨c1, a⟩ := p
+    cases a with
+    | reduce rule => exact xreduce_pre ..
+    | shift q =>
+      simp only
+      unfold xshift xshiftPre
+      repeat' (first | rfl | split)
+    | error =>
+      simp only
+      unfold xerrorBr xerrorPre
+      repeat' (first | rfl | split)
+
 end TmVerif.LRX
